@@ -150,6 +150,64 @@ theorem hitG_eq_count {α : Type} (ev : List α → Bool) (R : List α) :
   have : (R.length.factorial : ℚ) ≠ 0 := by positivity
   field_simp
 
+/-! ### `orders R` is exactly the set of rearrangements of `R`, each listed once -/
+
+theorem exists_pick {α : Type} : ∀ (R : List α) (b : α), b ∈ R → ∃ x ∈ picks R, x.1 = b
+  | a :: R, b, hb => by
+    rcases List.mem_cons.1 hb with rfl | hb
+    · exact ⟨(b, R), by simp [picks], rfl⟩
+    · obtain ⟨y, hy, rfl⟩ := exists_pick R b hb
+      exact ⟨(y.1, a :: y.2), by simp only [picks, List.mem_cons, List.mem_map]; exact Or.inr ⟨y, hy, rfl⟩, rfl⟩
+
+theorem mem_ordersF_of_perm {α : Type} : ∀ (f : Nat) (R σ : List α), R.length ≤ f → σ.Perm R → σ ∈ ordersF f R
+  | 0, R, σ, hl, hp => by
+    have hR : R = [] := List.length_eq_zero_iff.mp (by omega)
+    subst hR; simp [ordersF, hp.eq_nil]
+  | f + 1, [], σ, _, hp => by simp [ordersF, hp.eq_nil]
+  | f + 1, a :: R, σ, hl, hp => by
+    cases σ with
+    | nil => exact absurd hp.symm.eq_nil (by simp)
+    | cons b τ =>
+      obtain ⟨x, hx, rfl⟩ := exists_pick (a :: R) b (hp.mem_iff.1 (by simp))
+      have hτ : τ.Perm x.2 := (hp.trans (mem_picks_perm _ x hx).symm).cons_inv
+      have hlen := mem_picks_length (a :: R) x hx
+      simp only [ordersF, List.mem_flatMap, List.mem_map]
+      exact ⟨x, hx, τ, mem_ordersF_of_perm f x.2 τ (by simp at hl hlen; omega) hτ, rfl⟩
+
+/-- the members of `orders R` are exactly the rearrangements of `R` -/
+theorem mem_orders_iff {α : Type} {R σ : List α} : σ ∈ orders R ↔ σ.Perm R :=
+  ⟨mem_orders_perm, mem_ordersF_of_perm _ _ _ (le_refl _)⟩
+
+theorem picks_map_fst {α : Type} : ∀ R : List α, (picks R).map (·.1) = R
+  | [] => rfl
+  | a :: R => by simp [picks, List.map_map, Function.comp_def, picks_map_fst R]
+
+theorem ordersF_nodup {α : Type} : ∀ (f : Nat) (R : List α), R.length ≤ f → R.Nodup → (ordersF f R).Nodup
+  | 0, R, _, _ => by simp [ordersF]
+  | f + 1, [], _, _ => by simp [ordersF]
+  | f + 1, a :: R, hl, hnd => by
+    simp only [ordersF]
+    rw [List.nodup_flatMap]
+    constructor
+    · intro x hx
+      have hlen := mem_picks_length (a :: R) x hx
+      have hsub : x.2.Nodup := ((mem_picks_perm _ x hx).symm.nodup hnd).of_cons
+      exact (ordersF_nodup f x.2 (by simp at hl hlen; omega) hsub).map (fun _ _ h => (List.cons.inj h).2)
+    · have hp : (picks (a :: R)).Pairwise (fun x y => x.1 ≠ y.1) := by
+        have := hnd
+        rw [← picks_map_fst (a :: R), List.nodup_iff_pairwise_ne, List.pairwise_map] at this
+        exact this
+      refine hp.imp ?_
+      intro x y hxy
+      simp only [Function.onFun, List.disjoint_left, List.mem_map]
+      rintro σ ⟨τ, _, rfl⟩ ⟨τ', _, h⟩
+      exact hxy (List.cons.inj h).1.symm
+
+/-- no order is listed twice when the items are distinct (as the card indices `List.range n` are): with
+`orders_length` and `mem_orders_iff`, the fraction of `orders R` satisfying an event IS its probability under the
+uniform distribution on the `n!` rearrangements -/
+theorem orders_nodup {α : Type} {R : List α} (h : R.Nodup) : (orders R).Nodup := ordersF_nodup _ _ (le_refl _) h
+
 /-! ### sample numbers from an order -/
 
 /-- the value of the `i`-th call of the generator when the induced order of the cards is `π`: the card at
